@@ -4,7 +4,13 @@ from vrun import Job
 LEVEL = 'exploration'
 RULE = ('seeding: client and server x {system seeder fails, no seeder known (hook H1), library built with every system seeder disabled} x '
         '{entropy injected, not injected}: reset must return 0 with BR_ERR_NO_RANDOM, state CLOSED and no byte offered, or proceed (and a '
-        'handshake with injected entropy only completes). records: long sessions (one suite per protection mode x each version) with '
+        'handshake with injected entropy only completes); the same context reset up to four times (a refused reset must not wear the check out). '
+        'sysrng: builds without RDRAND whose system seeder is getentropy()+/dev/urandom or /dev/urandom alone, with link-time failpoints '
+        '(--wrap) on getentropy/open/read/close: every script of N read() outcomes from {EINTR, EIO, deliver 1/5/13/31/32 bytes} x open '
+        '{ok, ENOENT, EMFILE} x getentropy {ok, fails} x role x injected: outcome must equal the model (seeded iff injected or 32 bytes '
+        'delivered), the first flight must equal that of a context seeded through hook H1 with the same 32 bytes (chopped reads assemble the '
+        'same seed), the direct seeder on an HMAC_DRBG must equal update(delivered bytes), every opened descriptor closed exactly once, no '
+        'read after the end. records: long sessions (one suite per protection mode x each version) with '
         'renegotiations by alternating sides; every protected record is authenticated by the independent record layer under sequence number '
         'previous+1 starting at 0 after each key change, explicit CBC IVs / AEAD explicit nonces collected per (direction, key) and checked '
         'pairwise distinct. uniq: N connections with distinct seeds: client randoms, server randoms, session IDs, ECDHE points, RSA-encrypted '
@@ -15,10 +21,11 @@ ASSUMPTIONS = [
     'OpenSSL EVP trusted for the independent record layer',
 ]
 EVAL = ['cases', 'seed_sequence_resets']
-DISTINCT = ['mode_version', 'seeding_build', 'repro_cfg', 'seed_sequence_step']
+DISTINCT = ['mode_version', 'seeding_build', 'repro_cfg', 'seed_sequence_step', 'fault_plan', 'seeding_outcome', 'system_seeder_name']
 REQUIRED = ['refused_without_randomness', 'seed_sequence_resets', 'started_with_randomness', 'inject_only_handshakes', 'records_sequence_checked',
             'explicit_ivs_seen', 'iv_sets_checked_unique', 'renegotiations', 'key_changes_seen', 'connections',
-            'fields_checked_pairwise_distinct', 'reproduced_pairs']
+            'fields_checked_pairwise_distinct', 'reproduced_pairs', 'first_flights_compared', 'direct_outputs_compared',
+            'conservation_checks']
 NW = 12
 
 
@@ -35,6 +42,15 @@ def jobs(tier, seed):
     for i in range(4):
         js.append(Job('repro%d' % i, 'h_tls20', ['--seed', seed, '--mode', 'repro', '--worker', i, '--nworkers', 4,
                                                   '--conns', 24 if q else 300], libs=['-lcrypto'], timeout=3000))
+    # system seeders (getentropy, /dev/urandom) under injected faults: link-time failpoints on
+    # getentropy/open/read/close, every script of N read outcomes
+    wrap = ['-Wl,--wrap=getentropy,--wrap=open,--wrap=read,--wrap=close']
+    nw = 2 if q else 8
+    for fl in ('sys-ge', 'sys-ur'):
+        for i in range(nw):
+            js.append(Job('sysrng-%s-%d' % (fl, i), 'h_sysrng', ['--seed', seed, '--flavour', fl, '--depth', 3 if q else 4,
+                                                               '--worker', i, '--nworkers', nw],
+                          flavour=fl, libs=['-lcrypto'], extra_cflags=wrap, timeout=3000))
     return js
 
 
